@@ -71,6 +71,7 @@ let show_view (slot : mupdate option) : string =
 let verdict case impl =
   match case, impl with
   | ("S" | "Z") :: _, "skip-env" :: _ -> "ok skip-env"
+  | "U" :: _, "panic" :: _ -> "diff the hook / the merge functions panicked"
   | ["U"; script], [views; statuses] ->
     let ops = parse_mops script in
     let states = trace_mops (n_of_int 1) ops h_init in
@@ -120,7 +121,8 @@ let verdict case impl =
      | None -> "error model: script applies an operation that is not available"
      | Some tr ->
        if tr = impl_tr then "ok"
-       else if not (spec_check ops a_init impl_tr) then "viol spec_check=false model=" ^ show_trace tr
+       else if not (spec_check ops a_init impl_tr) && not (String.contains script 'K')
+       then "viol spec_check=false model=" ^ show_trace tr
        else "diff model=" ^ show_trace tr)
   | [("X" | "Q"); script], [obs] ->
     let ops = parse_script script in
@@ -129,10 +131,16 @@ let verdict case impl =
      | None -> "error model: script applies an operation that is not available"
      | Some tr ->
        if tr = impl_tr then "ok"
-       else if not (spec_check ops a_init impl_tr) then "viol spec_check=false model=" ^ show_trace tr
+       else if not (spec_check ops a_init impl_tr) then begin
+         (* the clauses of the specification for a clearing closure (K) and for try_recv (T) come from the API
+            documentation, not from the property text: a mismatch in a script that uses them is not labelled viol *)
+         if String.contains script 'K' || String.contains script 'T'
+         then "diff spec_check=false (script with K/T) model=" ^ show_trace tr
+         else "viol spec_check=false model=" ^ show_trace tr
+       end
        else "diff model=" ^ show_trace tr)
   | ["S"; _serial; n; _mode], [batches; fin] ->
-    if fin = "hang" then "viol twice in a row the consumer made no progress for 30 s after the producer had dropped the sender (lost wake-up or lost last update)"
+    if fin = "hang" then "viol twice in a row the consumer did not see the end of the stream (no progress for 30 s after the producer had dropped the sender, or 300 s in total): lost wake-up or lost last update"
     else begin
       let bs = parse_batches batches in
       if stress_ok (n_of_hex n) bs && fin = "end" then "ok"
@@ -154,10 +162,11 @@ let verdict case impl =
           | [asked; completed; ok; seen; mock; _together; final_ok] ->
             if completed <> asked then
               (if !viol = "" then viol := Printf.sprintf "round %d: %d of %d refresh_metadata calls were answered" i completed asked)
-            else if seen <> mock then
-              (if !viol = "" then viol := Printf.sprintf "round %d: the cluster state shows %d nodes, the mock cluster has %d" i seen mock)
             else if final_ok land 1 = 0 then
+              (* nothing was fetched successfully after the faults: the node count says nothing (not a viol) *)
               (if !diff = "" then diff := Printf.sprintf "round %d: the refresh after the scripted faults did not succeed" i)
+            else if seen <> mock && (mode <> "2" || ok > 0 || final_ok land 1 = 1) then
+              (if !viol = "" then viol := Printf.sprintf "round %d: the cluster state shows %d nodes, the mock cluster has %d" i seen mock)
             else if ok <> asked && mode <> "2" then
               (* with scripted metadata failures (mode 2) an Err answer is an answer *)
               (if !diff = "" then diff := Printf.sprintf "round %d: %d of %d refresh_metadata calls succeeded" i ok asked)
